@@ -85,7 +85,8 @@ OUT_SRC = [
     "a: int = 1\n\n\nclass K(object):\n    a: int = 2\n    b: int = 3\n",
 ]
 OUT_PATHS = [(["C.a", "C.m.a", "C.m.b"]), (["f.a", "f.b", "g.a"]), (["a", "K.a", "K.b"])]
-EVAL_SRC = "import math\n\nx = ('np', 'tf')\ny = (1, 2)\nz = ('a',)\n"
+EVAL_SRC = "import math\n\nx = ('np', 'tf')\ny = (0, 1, 2, False, True)\nz = ('a', 'a', 1.0, 1)\n"
+EVAL_VALUES = {"x": ("np", "tf"), "y": (0, 1, 2, False, True), "z": ("a", "a", 1.0, 1)}
 FTABLE = [(o, npairs, first, wrap, ev) for o in range(3) for npairs in (1, 2, 3) for first in range(3) for wrap in (0, 1) for ev in (0, 1)]
 
 
@@ -139,6 +140,22 @@ def file_level(c, active):
                     else:
                         h.target, h.annotation, h.value = ast.Name("<masked>", ast.Store()), ast.Name("m", ast.Load()), None
             return ast.dump(tree)
+        if ev:
+            # "a Literal of the evaluated values": every value, in order, with its own type (False is not 0, 1.0 is not 1)
+            for pth, src_name in zip(outs, ins):
+                hit = resolve(pth.split("."), after)
+                if not hit:
+                    return False
+                ann = hit[0].annotation
+                if wrap:
+                    continue  # wrapped: the Literal sits inside the template; checked unwrapped only
+                if not (isinstance(ann, ast.Subscript) and isinstance(ann.value, ast.Name) and ann.value.id == "Literal"):
+                    return False
+                elts = ann.slice.elts if isinstance(ann.slice, ast.Tuple) else [ann.slice]
+                got_vals = [e.value for e in elts if isinstance(e, ast.Constant)]
+                want_vals = list(EVAL_VALUES[src_name])
+                if len(got_vals) != len(want_vals) or any(type(g) is not type(w) or g != w for g, w in zip(got_vals, want_vals)):
+                    return False
         in_names = [p.split(".")[-1] for p in ins]
         out_names = [p.split(".")[-1] for p in outs]
         if ev:
